@@ -135,8 +135,19 @@ def patch_stops(rng, genome, feats):
 def render_genbank(genome, feats, rng=None):
     out = ["LOCUS       TEST   %d bp" % len(genome), "DEFINITION  test.", "FEATURES             Location/Qualifiers",
            "     source          1..%d" % len(genome), '                     /organism="test"']
+    def other_feature():
+        # features that are not CDS, some with keys that do not begin with a letter, carrying qualifiers a CDS also has:
+        # none of them belongs to, or says anything about, the coding features around it
+        key = rng.choice(["gene", "5'UTR", "3'UTR", "mat_peptide", "-10_signal", "-35_signal", "misc_feature", "stem_loop"])
+        a = rng.randint(1, max(1, len(genome) - 3))
+        lines = ["     %-15s %d..%d" % (key, a, min(len(genome), a + rng.randint(0, 5)))]
+        for q in rng.sample(['/gene="zz%d"' % rng.randint(0, 9), "/codon_start=%d" % rng.randint(2, 3), '/translation="MKV"', '/note="x y"', '/product="p"'], rng.randint(0, 3)):
+            lines.append("                     " + q)
+        return lines
     for f in feats:
         form = rng.randint(0, 1) if rng else 0
+        if rng and rng.random() < 0.35:
+            out += other_feature()
         out.append("     CDS             " + f.gb_location(form))
         out.append('                     /gene="%s"' % f.name)
         out.append("                     /codon_start=%d" % f.codon_start)
@@ -149,6 +160,8 @@ def render_genbank(genome, feats, rng=None):
             for l in lines[1:-1]:
                 out.append("                     " + l)
             out.append('                     %s"' % lines[-1])
+        if rng and rng.random() < 0.35:
+            out += other_feature()
     out.append("ORIGIN")
     low = genome.lower()
     for i in range(0, len(low), 60):
@@ -205,6 +218,17 @@ def render_gff(genome, feats, seqid="ref", with_fasta=True, seqregion=True, mix=
     else:
         for q in queues:
             out += q
+    if mix is not None and mix.random() < 0.4:
+        rows, keep = out[2 if seqregion else 1:], out[:2 if seqregion else 1]
+        extra = []
+        for _ in range(mix.randint(1, 3)):
+            a = mix.randint(1, max(1, len(genome) - 3))
+            typ = mix.choice(["gene", "five_prime_UTR", "three_prime_UTR", "region", "stem_loop", "mature_protein_region"])
+            extra.append("\t".join([seqid, "test", typ, str(a), str(min(len(genome), a + mix.randint(0, 5))), ".", mix.choice("+-."), ".",
+                                    "ID=x%d;Name=zz%d" % (mix.randint(0, 99), mix.randint(0, 9))]))
+        for e in extra:
+            rows.insert(mix.randint(0, len(rows)), e)
+        out = keep + rows
     if with_fasta:
         out.append("##FASTA")
         out.append(">" + seqid)
